@@ -85,6 +85,10 @@ def decide(run: core.Run, rule: str, search):
     return rc, lines, len(violations) + (1 if (broken and not violations and not known_hits) else 0)
 
 
+# how much larger than the quick workload the thorough one is (a few minutes per property on this machine)
+THOROUGH_BUDGET = {"C10": 40, "C14": 60, "C15": 20}
+
+
 def run_property(prop: str, tier: str, seed: int, budget: int, with_lean=True) -> core.Run:
     run = core.Run(prop, tier, seed)
     if with_lean:
@@ -146,10 +150,10 @@ def main():
     prop = a.property
     seed = int(os.environ.get("VERIF_SEED", "0") or 0)
     tier = a.tier if a.tier in ("quick", "thorough") else "quick"
-    budget = 1 if tier == "quick" else 20
+    budget = 1 if tier == "quick" else THOROUGH_BUDGET.get(prop, 100)
     try:
         run = run_property(prop, tier, seed, budget)
-        rc, lines, nviol = decide(run, run.rule, lambda: run_property(prop, tier, seed + 7919, budget * 4, with_lean=False))
+        rc, lines, nviol = decide(run, run.rule, lambda: run_property(prop, tier, seed + 7919, budget * (4 if tier == "quick" else 2), with_lean=False))
         extra = {"rule": run.rule, "notes": run.notes}
         if tier == "thorough" and run.lean and run.lean.get("proofs_ok"):
             t = time.time()
